@@ -643,4 +643,88 @@ Section G.
     apply sp_mutind; intros; cbn [size sizep sizeps flat flatp flatps];
       repeat (rewrite app_length || cbn [length]); try lia.
   Qed.
+
+  (* ---- a well-formed spelling consists of tokens the model reads: it is inside the model's scope ---- *)
+  Notation in_scope_from := (in_scope_from tk cl).
+  Definition is_nil (X : list tk) : bool := match X with [] => true | _ :: _ => false end.
+  Definition scoped (X : list tk) : Prop :=
+    forall b r, in_scope_from b (X ++ r) = in_scope_from (b && is_nil X) r.
+  Definition ok_class (c : tcl) : bool := match c with CSel | COther | CHash | CBoolT => false | _ => true end.
+
+  Lemma scoped_nil : scoped [].
+  Proof. intros b r. cbn. rewrite andb_true_r. reflexivity. Qed.
+
+  Lemma scoped_app X Y : scoped X -> scoped Y -> scoped (X ++ Y).
+  Proof.
+    intros HX HY b r. rewrite <- app_assoc, HX, HY. f_equal. destruct X; destruct Y; cbn; rewrite ?andb_true_r, ?andb_false_r; reflexivity.
+  Qed.
+
+  Lemma scoped_cons t X : ok_class (cl t) = true -> scoped X -> scoped (t :: X).
+  Proof.
+    intros Ht HX b r. cbn [app StParser.in_scope_from]. rewrite andb_false_r.
+    destruct (cl t); try discriminate; rewrite HX; cbn; destruct X; reflexivity.
+  Qed.
+
+  Lemma scoped_tok t : ok_class (cl t) = true -> scoped [t].
+  Proof. intro H. apply scoped_cons; [exact H | apply scoped_nil]. Qed.
+
+  Lemma scoped_triv w : all_triv w -> scoped w.
+  Proof. induction 1 as [|t w Ht _ IH]; [apply scoped_nil|]. apply scoped_cons; [rewrite Ht; reflexivity | exact IH]. Qed.
+
+  Lemma scoped_bool bt hs v k X : cl bt = CBoolT -> cl hs = CHash -> cl v = CConst k -> scoped X -> scoped (bt :: hs :: v :: X).
+  Proof.
+    intros H1 H2 H3 HX b r. cbn [app StParser.in_scope_from]. rewrite H1, H2, H3. cbn [andb]. rewrite HX, andb_false_r. cbn. destruct X; reflexivity.
+  Qed.
+
+  Lemma ok_of_class t c : cl t = c -> ok_class c = true -> ok_class (cl t) = true.
+  Proof. intros -> H. exact H. Qed.
+
+  Lemma ok_bop t x : bop_of t = Some x -> ok_class (cl t) = true.
+  Proof. unfold StParser.bop_of. destruct (cl t); try discriminate; reflexivity. Qed.
+  Lemma ok_uop t o : uop_of t = Some o -> ok_class (cl t) = true.
+  Proof. unfold StParser.uop_of. destruct (cl t); try discriminate; reflexivity. Qed.
+
+  Ltac sc :=
+    repeat first
+      [ assumption
+      | apply scoped_nil
+      | apply scoped_triv; assumption
+      | apply scoped_app
+      | apply scoped_cons; [first [ eapply ok_of_class; [eassumption | reflexivity] | eapply ok_bop; eassumption | eapply ok_uop; eassumption ] | ] ].
+
+  Lemma wf_scoped :
+    (forall s, (forall q, wf q s -> scoped (flat s)) /\ (wfp s -> scoped (flat s))) /\
+    (forall p, wfpar p -> scoped (flatp p)) /\
+    (forall ps, forall w3, wfpars w3 ps -> scoped (flatps ps)).
+  Proof.
+    apply sp_mutind with (P := fun s => (forall q, wf q s -> scoped (flat s)) /\ (wfp s -> scoped (flat s)))
+                         (P0 := fun p => wfpar p -> scoped (flatp p)) (P1 := fun ps => forall w3, wfpars w3 ps -> scoped (flatps ps)).
+    - intros t k. split; [intros q H | intros H]; cbn in H; cbn [flat]; apply scoped_tok; rewrite H; reflexivity.
+    - intros sg d neg. split; [intros q (-> & H1 & H2) | intros (H1 & H2)]; cbn [flat].
+      + sc.
+      + destruct neg; sc.
+    - intros bt hs v b. split; [intros q (H1 & H2 & H3) | intros (H1 & H2 & H3)]; cbn [flat]; eapply scoped_bool; eauto using scoped_nil.
+    - intros t w. split; [intros q (H1 & H2) | intros (H1 & H2)]; cbn [flat]; sc.
+    - intros t w1 lp w2 rp. split; [intros q (H1 & H2 & H3 & H4 & H5) | intros (H1 & H2 & H3 & H4 & H5)]; cbn [flat]; sc.
+    - intros t w1 lp w2 p IHp ps IHps w3 rp.
+      assert (G : wf 0 (SCallN t w1 lp w2 p ps w3 rp) -> scoped (flat (SCallN t w1 lp w2 p ps w3 rp))).
+      { intros (H1 & H2 & H3 & H4 & H5 & H6 & H7 & H8 & _). cbn [flat]. specialize (IHp H5). specialize (IHps w3 H6). sc. }
+      split; [intros q H; apply G; exact H | exact G].
+    - intros tl w1 s [IH _] w2 tr.
+      assert (G : wf 0 (SParen tl w1 s w2 tr) -> scoped (flat (SParen tl w1 s w2 tr))).
+      { intros (H1 & H2 & H3 & H4 & H5 & _). cbn [flat]. specialize (IH 0 H5). sc. }
+      split; [intros q H; apply G; exact H | exact G].
+    - intros t o w s [IH IHp]. split; [|intros []]. intros q (H1 & H2 & H3). cbn [flat].
+      assert (Hs : scoped (flat s)) by (apply IHp; exact H3). sc.
+    - intros t o l [IHl _] w1 w2 r [IHr _]. split; [|intros []]. intros q (H1 & H2 & H3 & _ & H5 & H6 & _). cbn [flat].
+      specialize (IHl _ H5). specialize (IHr _ H6). sc.
+    - intros e [IH _] H. cbn [flatp]. apply (IH 0). exact H.
+    - intros n w1 a w2 e [IH _] (H1 & H2 & H3 & H4 & H5). cbn [flatp]. specialize (IH 0 H5). sc.
+    - intros ng n w1 a w2 v (H0 & H1 & H2 & H3 & H4 & H5). cbn [flatp].
+      destruct ng as [[nt nw]|]; cbn [ng_flat app].
+      + destruct H0 as (Hn & Hw). sc.
+      + sc.
+    - intros w3 _. apply scoped_nil.
+    - intros w1 c w2 p IHp r IHr w3 (H1 & H2 & H3 & H4 & H5 & _). cbn [flatps]. specialize (IHp H4). specialize (IHr w3 H5). sc.
+  Qed.
 End G.
